@@ -10,12 +10,21 @@ for d in sorted(glob.glob(os.path.join(root, "seeded", "*", ""))):
     sid = os.path.basename(d.rstrip("/"))
     prop = m.get("property", sid.split("-")[0])
     first = (m.get("detection_first_run") or {}).get(prop, {})
-    later = (m.get("detection_after_strengthening") or {}).get(prop)
+    laterall = m.get("detection_after_strengthening") or {}
+    later = laterall.get(prop)
     final = later or first
+    # a change to one property's code may be caught by another property's check (genesis paths by C14)
+    by = prop
+    if final.get("exit") != 1:
+        for q, r in laterall.items():
+            if r.get("exit") == 1:
+                final, by = r, q
     sigs = []
     for s in final.get("caught_by") or []:
         if s not in sigs:
             sigs.append(s)
+    if by != prop:
+        sigs = ["by ./check %s" % by] + sigs
     firsttxt = "caught" if first.get("exit") == 1 else "**missed**"
     conf = m.get("confirmation", {})
     note = "" if conf.get("existing_tests_pass_with_change") else " (existing tests of the package fail with it: not a valid seed, kept for the record)"
